@@ -68,7 +68,27 @@ def minimise(base, run, cls):
             cur['state'] = st
     return cur
 
+def _pycache_dirs(root):
+    out = set()
+    for dp, dn, fn in os.walk(root):
+        if '.git' in dn:
+            dn.remove('.git')
+        if os.path.basename(dp) == '__pycache__':
+            out.add(dp)
+    return out
+
 def run(batch, n_runs):
+    # lifetimes with byte-code caching switched on leave __pycache__ directories in the tree under test: those that were
+    # not there before this batch are removed again when it ends
+    before = _pycache_dirs(core.REPO)
+    try:
+        return run2(batch, n_runs)
+    finally:
+        import shutil
+        for d in sorted(_pycache_dirs(core.REPO) - before, reverse=True):
+            shutil.rmtree(d, ignore_errors=True)
+
+def run2(batch, n_runs):
     base = base_dir()
     C.warm_dir(base)
     C.stale_grammar_dir(base)
